@@ -17,6 +17,8 @@ RULE = ("block 'ctor': a random (values, dims, labels) built through every docum
         "populating queries) on a pool of live arrays, each compared after every step with a freshly built twin through a probe battery; "
         "guest shards: all other workloads with the well-formedness hook deciding. class = (block, form) or (set of step kinds, length)")
 ANCHORS = ["dimarraycls.__init__", "axes.append", "axes._init_axes", "axes._check_axis_values", "axes.is_monotonic"]
+# entry points the workload calls itself; the other anchors are helpers behind them (counted as evidence only)
+ANCHORS_REQUIRED = ["dimarraycls.__init__"]
 FLOORS = {"quick": {"evaluations": 600, "distinct": 200, "event:wf_init_hook": 100000, "outcome:twin-comparisons": 10000, "outcome:ctor-forms": 3000},
           "thorough": {"evaluations": 10000, "distinct": 1000}}
 GUESTS = [("c01", 0.1), ("c02", 0.03), ("c03", 0.1), ("c04", 0.15), ("c06", 0.15), ("c07", 0.1), ("c08", 0.1), ("c09", 0.1), ("c10", 0.15),
